@@ -80,6 +80,10 @@ CORNERS = [
     ('raise-keyword-args', "def load(name_value):\n    raise ImportError(name=name_value, path='/nowhere/' + name_value)\ndef probe():\n    raise AttributeError(name='attr', obj=None)\nfor f in (lambda: load('spam'), probe):\n    try:\n        f()\n    except (ImportError, AttributeError) as error:\n        print(type(error).__name__, error.name, getattr(error, 'path', None), error.args)\n"),
     ('short-parameter-names', "def solve(A, values, *, B=1):\n    total = 0\n    for value in values:\n        total += value * A + B\n    return total + total + total\nprint(solve(2, [1, 2, 3]), solve(A=3, values=[1], B=0))\nclass K:\n    def method(self, A, *rest, C=2):\n        total = sum(rest) + A\n        return total * total * C + total\nprint(K().method(1, 2, 3, C=4))\n"),
     ('already-minified', "def A(B,C=2,*D,E=3,**F):\n    G=B+C\n    H=[G*I for I in D]\n    return G,H,E,sorted(F),G,G,H,H\nprint(A(1),A(1,2,3,4,E=5,Z=6))\n"),
+    # statements removed in front of a string statement must not turn it into a docstring
+    ('pass-before-string-statement', "def documented():\n    pass\n    'not a docstring'\n    return 1\nclass Holder:\n    pass\n    'not a docstring either'\n    value = 2\nprint(documented.__doc__, Holder.__doc__, documented(), Holder.value)\n"),
+    ('pass-before-string-statement-module', "pass\n'not a module docstring'\nprint(__doc__ is None)\n"),
+    ('passes-before-string-in-nested-def', "def outer():\n    def inner():\n        pass\n        pass\n        'text'\n    return inner.__doc__\nprint(outer())\n"),
     ('short-parameter-read-in-nested-scope', "def total(A, rows):\n    return sum(item * A + item + item for item in rows)\ndef outer(B, count):\n    def inner(value):\n        acc = value * B\n        acc = acc + value\n        return acc + value + acc\n    return inner(count)\nprint(total(2, [1, 2, 3]), outer(3, 4))\n"),
     ('nested-class-private', "class Outer:\n    __secret = 1\n    def get(self):\n        return self.__secret\n    class Inner:\n        def peek(self, outer):\n            return outer._Outer__secret\nprint(Outer().get(), Outer.Inner().peek(Outer()))\n"),
 ]
